@@ -122,3 +122,66 @@ package commonmark
 //@       && 1 <= end && end <= i && line[end-1] == want
 //@       && forall k in [0, i): line[k] == want || IsSpaceTabEOL(line[k]))
 //@   serves C15, C04
+
+// ---------------------------------------------------------------------------
+// Scanning helpers
+// ---------------------------------------------------------------------------
+
+//@ -- RunEnd: end of the maximal run of c that starts at a, within [a,b)
+//@ spec RunEnd(s []byte, c int, a int, b int) int = a >= b ? b : (s[a] == c ? RunEnd(s, c, a+1, b) : a)
+//@ -- FirstNonWS: first index in [a,b) that holds neither space nor tab, else b
+//@ spec FirstNonWS(s []byte, a int, b int) int = a >= b ? b : (IsWS(s[a]) ? FirstNonWS(s, a+1, b) : a)
+//@ -- LastNonWS: one past the last index in [a,b) that holds neither space nor tab, else a
+//@ spec LastNonWS(s []byte, a int, b int) int = b <= a ? a : (IsWS(s[b-1]) ? LastNonWS(s, a, b-1) : b)
+//@ spec AllWS(s []byte, a int, b int) bool = forall k in [a, b): IsWS(s[k])
+
+//@ lemma RunEnd_is(s []byte, c int, a int, b int, e int)
+//@   requires a <= e && e <= b
+//@   requires forall k in [a, e): s[k] == c
+//@   requires e == b || s[e] != c
+//@   ensures RunEnd(s, c, a, b) == e
+//@   decreases e - a
+//@   ih RunEnd_is(s, c, a+1, b, e)
+
+//@ lemma FirstNonWS_is(s []byte, a int, b int, e int)
+//@   requires a <= e && e <= b
+//@   requires forall k in [a, e): IsWS(s[k])
+//@   requires e == b || !IsWS(s[e])
+//@   ensures FirstNonWS(s, a, b) == e
+//@   decreases e - a
+//@   ih FirstNonWS_is(s, a+1, b, e)
+
+//@ lemma LastNonWS_is(s []byte, a int, b int, e int)
+//@   requires a <= e && e <= b
+//@   requires forall k in [e, b): IsWS(s[k])
+//@   requires e == a || !IsWS(s[e-1])
+//@   ensures LastNonWS(s, a, b) == e
+//@   decreases b - e
+//@   ih LastNonWS_is(s, a, b-1, e)
+
+//@ func isBlankLine
+//@   ensures[equiv] result <==> (forall k in [0, len(line)): IsSpaceTabEOL(line[k]))
+//@   loop 0: invariant[seen] forall k in [0, _i): IsSpaceTabEOL(line[k])
+//@   serves C15, C01, C04
+
+//@ func hasTabOrSpacePrefixOrEOL
+//@   ensures[equiv] result <==> (len(line) == 0 || IsSpaceTabEOL(line[0]))
+//@   serves C15, C04
+
+// ---------------------------------------------------------------------------
+// Setext heading underline (section 4.3): a sequence of = characters or a
+// sequence of - characters, with any number of trailing spaces or tabs.
+// ---------------------------------------------------------------------------
+
+//@ spec Setext(s []byte, c int) bool = BodyLen(s) >= 1 && s[0] == c && AllWS(s, RunEnd(s, c, 0, BodyLen(s)), BodyLen(s))
+
+//@ func parseSetextHeadingUnderline
+//@   requires LineShape(line)
+//@   ensures[level1] level == 1 <==> Setext(line, '=')
+//@   ensures[level2] level == 2 <==> Setext(line, '-')
+//@   ensures[range] level == 0 || level == 1 || level == 2
+//@   loop 0: invariant[run] 1 <= i && i <= len(line) && (forall k in [0, i): line[k] == line[0])
+//@   loop 0: invariant[level] (line[0] == '=' && level == 1) || (line[0] == '-' && level == 2)
+//@   loop 0: decreases len(line) - i
+//@   use RunEnd_is(line, line[0], 0, BodyLen(line), min(i, BodyLen(line)))
+//@   serves C15, C04
